@@ -112,18 +112,21 @@ static inline uint64_t gen_total(uint64_t big)
         default: return rng<uint64_t>(1, big);
         }
 }
-static inline Case gen_case(const Fam &f, uint64_t big, long giant_ppm = 0)
+// giant: 0 = no, 1 = a stream just above 2^29 bytes (bit length overflows 32 bits), 2 = a stream just below 2^32 bytes
+static inline Case gen_case(const Fam &f, uint64_t big, long giant_ppm = 0, int giant = 0)
 {
         using namespace pbt;
         Case c;
-        if (giant_ppm > 0 && rng<long>(0, 999999) < giant_ppm) {
+        if (giant == 0 && giant_ppm > 0 && rng<long>(0, 999999) < giant_ppm) giant = 2;
+        if (giant) {
                 // a stream just below 2^32 bytes in 1..4 update calls (single updates up to 2^32-1 bytes)
                 c.fam = f.label();
                 c.seed = 1;
                 c.giant = 1;
                 c.prefill = rng<int>(0, 255);
                 if (f.kind == MH_MURMUR) c.murmur_seed = rng64(0, UINT64_MAX);
-                uint64_t total = 0xffffffffull - pick<uint64_t>({ 0, 1, 7, 8, 9, 15, 16, 1023, 1024, 1025 }) - (coin(1, 3) ? rng<uint64_t>(0, 70000) : 0);
+                uint64_t total = giant == 1 ? (1ull << 29) + pick<uint64_t>({ 0, 1, 8, 1015, 1016, 1024, 4097 }) + (coin(1, 3) ? rng<uint64_t>(0, 70000) : 0)
+                                            : 0xffffffffull - pick<uint64_t>({ 0, 1, 7, 8, 9, 15, 16, 1023, 1024, 1025 }) - (coin(1, 3) ? rng<uint64_t>(0, 70000) : 0);
                 int k = rng<int>(1, 4);
                 uint64_t left = total;
                 for (int i = 0; i < k - 1; i++) {
